@@ -947,6 +947,9 @@ def run_set(ctx: Ctx, drv: Optional[Driver], s: dict, v11: bool, tmp: Path, subs
             alone = grp.get(None)
             c = s['wilds'][gname]['c']
             names_u = [('', 'zz'), (T, 'zz'), (F, 'zz'), (U, 'zz'), ('urn:fresh', 'zz')]
+            # ... and the names the notQName lists mention (a union can re-admit them)
+            names_u += [tuple(q) for q in c['notQ']] + ([tuple(q) for q in base['wild']['c']['notQ']]
+                                                       if base and base['wild'] else [])
             got = None if alone is None else [bool(alone.is_matching('{%s}%s' % n if n[0] else n[1])) for n in names_u]
             want = [den_q(c, n) for n in names_u]
             if got != want:
@@ -958,7 +961,7 @@ def run_set(ctx: Ctx, drv: Optional[Driver], s: dict, v11: bool, tmp: Path, subs
                     continue
                 ctx.failure('the wildcard of an attribute group used alone differs from its declared constraint '
                             '(changed by being combined in another type?)', case_g,
-                            {'declared': c, 'admits': dict(zip(['absent', 'tns', 'urn:f', 'urn:u', 'fresh'], got or []))})
+                            {'declared': c, 'admits': dict(zip(map(str, names_u), got or []))})
     g = introspect_group(b)
     if g is None:
         ctx.failure('built group cannot be expressed in the model (type outside the catalogue / malformed '
